@@ -18,8 +18,13 @@ Inductive case :=
 (* The variant of the model the implementation is compared with.  The
    integrator flips this when proposed_fixes/C08-F09.diff lands in /repo. *)
 Definition code_fixed_F09 := false.
-(* the relay defect has no small patch (wire format); always the pinned variant *)
-Definition code_fx : fixes := mkfixes code_fixed_F09 false.
+(* idem for proposed_fixes/C08-F29.diff (identity message without public key) *)
+Definition code_fixed_F29 := false.
+(* the relay defect (F28) has no small compatible patch (the signed bytes change);
+   the flag exists so that a tree carrying the binding can be checked too -- the
+   harness detects by itself which bytes the code under test signs *)
+Definition code_fixed_F28 := false.
+Definition code_fx : fixes := mkfixes code_fixed_F09 code_fixed_F28 code_fixed_F29.
 
 Fixpoint keys_eqb (a b : list key) : bool :=
   match a, b with
@@ -32,7 +37,8 @@ Definition agree (c : case) : bool :=
   match c with
   | Case lv r s _ h id msgs (Obs hs disp stamp crash) =>
       let m := link code_fx lv r s h id msgs in
-      negb crash && Bool.eqb (out_hs m) hs && (out_disp m =? disp) && keys_eqb (out_stamp m) stamp
+      Bool.eqb (out_crash m) crash && Bool.eqb (out_hs m) hs && (out_disp m =? disp) &&
+      keys_eqb (out_stamp m) stamp
   end.
 
 Definition mismatches (l : list case) : list nat := mism_idx agree l.
